@@ -247,6 +247,26 @@ func c10Stopwatch(c *mon.Ctx, r *mon.Rand) {
 	if d < lo || d > hi {
 		c.Violation("stopwatch-elapsed", fmt.Sprintf("stopwatch recorded %v but the elapsed time is bracketed by [%v,%v] (slept %v)", d, lo, hi, sleep))
 	}
+	// stopwatches built with NewStopwatch from a start in the past (an hour, a
+	// century, more than a Duration can hold, the zero time): the elapsed time
+	// as Time.Sub computes it (saturating), never a wrapped or negative value
+	if sr, ok := tm.(tally.StopwatchRecorder); ok {
+		for _, start := range []time.Time{time.Now().Add(-time.Hour), time.Now().AddDate(-100, 0, 0), time.Now().AddDate(-400, 0, 0), {}, time.Unix(0, 0), time.Date(1677, 1, 1, 0, 0, 0, 0, time.UTC)} {
+			n0 := len(timerEvents(logOf(prec)))
+			before := time.Now().Sub(start)
+			tally.NewStopwatch(start, sr).Stop()
+			after := time.Now().Sub(start)
+			evs := timerEvents(logOf(prec))
+			if len(evs) != n0+1 {
+				c.Violation("stopwatch-count", fmt.Sprintf("one NewStopwatch/Stop produced %d timer deliveries", len(evs)-n0))
+				break
+			}
+			if d := time.Duration(evs[n0].I); d < before || d > after {
+				c.Violation("stopwatch-elapsed", fmt.Sprintf("a stopwatch with the start %v recorded %v; the elapsed time is bracketed by [%v,%v]", start, d, before, after))
+			}
+			c.Event("stopwatches-with-a-start-in-the-past", 1)
+		}
+	}
 	c.Distinct(mon.Hash64(fmt.Sprint(sleep, useHist)))
 }
 
